@@ -324,6 +324,47 @@ func judgeRaw(raw []byte, chainID int64) (vs []evid.Violation, out outcome) {
 	return vs, out
 }
 
+// ---- kind "history": several recoveries in one process; every result handed out earlier must
+// still read the same after the later calls (no pooled / shared buffers behind results).
+
+type SeqCase struct {
+	Steps []Case `json:"steps"`
+}
+
+func judgeSeq(c SeqCase) (vs []evid.Violation) {
+	ctx := context.Background()
+	type kept struct {
+		addr *ethtypes.Address0xHex
+		res  *ethsigner.TransactionWithOriginalPayload
+		snap string
+		step int
+	}
+	var keep []kept
+	for i, st := range c.Steps {
+		raw, err := hex.DecodeString(st.Raw)
+		if err != nil {
+			continue
+		}
+		if jv := judgePure(st); len(jv) > 0 {
+			return append(vs, evid.V("history:"+jv[0].Clause, "step %d: %s", i, jv[0].Detail))
+		}
+		var addr *ethtypes.Address0xHex
+		var res *ethsigner.TransactionWithOriginalPayload
+		if pv := evid.Guard("no-panic", func() { addr, res, err = ethsigner.RecoverRawTransaction(ctx, raw, st.ChainID) }); pv != nil {
+			return append(vs, *pv)
+		}
+		if err == nil && addr != nil && res != nil {
+			keep = append(keep, kept{addr: addr, res: res, snap: resultSnapshot(addr, res), step: i})
+		}
+	}
+	for _, k := range keep {
+		if now := resultSnapshot(k.addr, k.res); now != k.snap {
+			vs = append(vs, evid.V("result-stable-across-calls", "the result of step %d reads differently after %d later recoveries:\n was %s\n now %s", k.step, len(c.Steps)-1-k.step, k.snap, now))
+		}
+	}
+	return vs
+}
+
 // judgePure is judge without the classification side channel (safe for concurrent use).
 func judgePure(c Case) []evid.Violation {
 	raw, err := hex.DecodeString(c.Raw)
@@ -730,6 +771,22 @@ func TestCheck(t *testing.T) {
 			})
 		}
 	})
+	// histories of recoveries (same form, later payloads no longer than earlier ones included)
+	kSeq := evid.NewKind(rec, "history", judgeSeq)
+	rec.Rapid(t, "history", rec.N(150, 1500), func(rt *rapid.T) {
+		n := rapid.IntRange(2, 5).Draw(rt, "steps")
+		var sc SeqCase
+		for i := 0; i < n; i++ {
+			b := genBuilt(rt)
+			if rapid.IntRange(0, 3).Draw(rt, "mutated") == 0 {
+				raw, supplied, _ := mutate(rt, b)
+				sc.Steps = append(sc.Steps, Case{Raw: hex.EncodeToString(raw), ChainID: supplied})
+			} else {
+				sc.Steps = append(sc.Steps, Case{Raw: hex.EncodeToString(b.bytes()), ChainID: b.chain})
+			}
+		}
+		kSeq.Check(rt, sc, true, "history")
+	})
 	// accepted transactions recovered from many goroutines at once: verdicts must not depend on concurrent callers
 	cpool.Run(t, 8, 4, 12)
 }
@@ -738,6 +795,7 @@ func TestReplay(t *testing.T) {
 	rec := evid.Start("C10", rule)
 	evid.NewKind(rec, "raw", judge)
 	evid.NewPool(rec, "concurrent", judgePure, 0)
+	evid.NewKind(rec, "history", judgeSeq)
 	rec.Replay(t)
 }
 
